@@ -1,11 +1,11 @@
 SPECIFICATION Spec
 CONSTANTS
-  Reqs = {"r1", "r2", "r3"}
+  Reqs = {"r1", "r2", "r3", "r4"}
   Bad = {"r3"}
-  Shapes = {{"parm", "partvar", "loc"}}
+  Shapes = {{"parm", "partvar", "loc", "pkg"}, {"body", "partvar"}}
   MaxEvict = 2
-  Impl = "fixed"
-  Lock = "fixed"
+  Defects = {}
+  Lock = TRUE
 INVARIANTS TypeOK Isolated NoForeignSymbols SavedIsNeutral NoCrash ScDiscipline NoLostWakeup
 VIEW View
 CHECK_DEADLOCK FALSE
